@@ -105,6 +105,31 @@ fn prop(c: &WorldCase, obs: &mut Obs) -> CaseResult {
     typecheck(&files, &format!("WIT:\n{}", p.text))
 }
 
+/// (name, WIT) of the constructed qualification worlds
+fn qualification_worlds() -> Vec<(String, String)> {
+    let shapes: [(&str, &str, &str); 6] = [
+        ("case-named-like-record-payload", "record config { level: u32, fast: bool }\n  variant setting { none, config(config), other(u32) }", "apply: func(s: setting) -> setting;"),
+        ("case-named-like-enum-payload", "enum mode { fast, slow }\n  variant pick { mode(mode), nothing }", "choose: func(p: pick) -> mode;"),
+        ("method-named-like-record", "record config { level: u32 }\n  resource conn { constructor(); config: func() -> u32; update: func(c: config); }", "open: func() -> conn;"),
+        ("field-named-like-its-type", "record config { level: u32 }\n  record outer { config: config, more: list<config> }", "wrap: func(o: outer) -> outer;"),
+        ("parameter-named-like-its-type", "record config { level: u32 }", "tune: func(config: config) -> config;"),
+        ("case-with-list-of-same-name", "record config { level: u32 }\n  variant many { config(list<config>), one(option<config>) }", "all: func(m: many) -> many;"),
+    ];
+    let mut out = vec![];
+    for (name, types, func) in shapes {
+        // world-level types (functions only when no resource is involved: world-level resources
+        // are a listed finding of their own)
+        if !types.contains("resource") {
+            out.push((format!("{name}/world-level"), format!("package foo:bar;\nworld w {{\n  {types}\n  import {func}\n  export run-{func}\n}}\n")));
+        }
+        let iface = format!("interface things {{\n  {types}\n  {func}\n}}\n");
+        for (scope, items) in [("import-plain-name", "import alias: things;"), ("export-plain-name", "export alias: things;"), ("import-qualified", "import things;"), ("export-qualified", "export things;")] {
+            out.push((format!("{name}/{scope}"), format!("package foo:bar;\n{iface}world w {{\n  {items}\n}}\n")));
+        }
+    }
+    out
+}
+
 pub fn run(check: &mut Check) {
     check.rule = "generated worlds restricted to what the C++ backend does not declare unsupported (no async/futures/streams/error-context, no fixed-length lists, no variant case named like its variant) with adversarial names (C/C++ keywords, generator temporaries, names equal across interfaces) + the corpus minus crates/test/src/cpp.rs exclusions; every generated .cpp is type-checked with `g++ -std=c++20 -fsyntax-only` against crates/cpp/helper-types and test_headers; \
         oracle: no error diagnostics (warnings ignored; the host-width-only error `cast ... loses precision` filtered); non-trivial = world with escaped names or >= 2 feature classes; distinct by WIT text".into();
@@ -136,6 +161,22 @@ pub fn run(check: &mut Check) {
             })
         });
     }
+    // constructed worlds around name qualification: a name of the enclosing namespace that is
+    // shadowed inside a nested scope (a variant case, a resource method, a field or a parameter
+    // named like the type it carries), with the type in a one-component namespace (world-level,
+    // interface under a plain name) or in a package-qualified one
+    let quals: Vec<serde_json::Value> = qualification_worlds().into_iter().map(|(n, w)| serde_json::json!({"name": n, "wit": w})).collect();
+    check.cases_par("qualification", &quals, |case, obs| {
+        let wit = case["wit"].as_str().unwrap();
+        let (resolve, world) = backends::resolve_input(&Input::Text(wit), Some("w")).unwrap_or_else(|e| vcommon::harness_error(format!("constructed world does not parse: {e:#}\n{wit}")));
+        let tmp = tempfile::tempdir().map_err(|e| Failure::new("io", e.to_string()))?;
+        let files = match backends::generate("cpp", &[], &resolve, world, Some(tmp.path())) {
+            GenOutcome::Files(f) => f,
+            _ => return Ok(()),
+        };
+        obs.nontrivial_by(&wit);
+        typecheck(&files, &format!("constructed world {}:\n{wit}", case["name"].as_str().unwrap()))
+    });
     match check.tier {
         vcommon::Tier::Quick => {
             // The unchanged C++ backend fails on a large share of random worlds with an open-ended
